@@ -98,6 +98,73 @@ pub fn brute_min(frs: &[(I, I, I)], lws: &[I], pen: [I; 5]) -> I {
     best.unwrap()
 }
 
+/// exact minimum for ONE line width when every fragment is at least one column wide with at least
+/// one column of whitespace: a line holding more than `w + 1` fragments overflows by more than the
+/// cost of breaking it (default penalties), so only lines of up to `w + 2` fragments matter —
+/// O(n·w) with prefix sums, usable for tens of thousands of fragments
+fn min_cost_long(frs: &[(I, I, I)], w: I, pen: [I; 5]) -> I {
+    let n = frs.len();
+    let kmax = (w as usize) + 2;
+    let mut pre = vec![0 as I; n + 1];
+    for i in 0..n {
+        pre[i + 1] = pre[i] + frs[i].0 + frs[i].1;
+    }
+    let target = w.max(1);
+    let mut best = vec![0 as I; n + 1];
+    for i in (0..n).rev() {
+        let mut b: Option<I> = None;
+        for j in i + 1..=(i + kmax).min(n) {
+            let lw = pre[j] - pre[i] - frs[j - 1].1 + frs[j - 1].2;
+            let mut c = pen[0];
+            if lw > target {
+                c += (lw - target) * pen[1];
+            } else if j < n {
+                c += (target - lw) * (target - lw);
+            } else if i + 1 == j && (pen[2] == 0 || lw * pen[2] < target) {
+                c += pen[3];
+            }
+            if frs[j - 1].2 > 0 {
+                c += pen[4];
+            }
+            let c = c + best[j];
+            if b.map_or(true, |x| c < x) {
+                b = Some(c);
+            }
+        }
+        best[i] = b.unwrap();
+    }
+    best[0]
+}
+
+/// long paragraphs through the public `WrapAlgorithm::wrap` (optimal-fit): sizes beyond anything
+/// the other streams reach
+#[cfg(feature = "full")]
+fn c03_long(ctx: &mut Ctx) {
+    let sizes: &[usize] = if ctx.thorough { &[2_000, 10_001, 12_345, 30_000] } else { &[10_001, 12_345] };
+    for &n in sizes {
+        let vocab: &[&str] = &["a", "to", "the", "that", "being", "wrapped", "question"];
+        let text: Vec<&str> = (0..n).map(|_| *ctx.rng.pick(vocab)).collect();
+        let words: Vec<textwrap::core::Word<'_>> = text.iter().map(|t| { let mut w = textwrap::core::Word::from(*t); w.whitespace = " "; w }).collect();
+        let w: usize = 10 + ctx.rng.below(30);
+        let alg = textwrap::WrapAlgorithm::OptimalFit(textwrap::wrap_algorithms::Penalties::new());
+        let desc = format!("WrapAlgorithm::OptimalFit.wrap({} words from a 7-word vocabulary, [{}])", n, w);
+        ctx.risky(&desc);
+        let lens = quiet(|| alg.wrap(&words, &[w]).iter().map(|l| l.len()).collect::<Vec<usize>>());
+        ctx.risky_done();
+        ctx.count("long_paragraph_cases");
+        let Some(lens) = lens else { ctx.fail("returns normally", desc, None); continue };
+        let fi: Vec<(I, I, I)> = words.iter().map(|x| (textwrap::core::display_width(x.word) as I, 1, 0)).collect();
+        let pi = [DEFAULT_PEN[0] as I, DEFAULT_PEN[1] as I, DEFAULT_PEN[2] as I, DEFAULT_PEN[3] as I, DEFAULT_PEN[4] as I];
+        let c = arrangement_cost(&fi, &[w as I], pi, &lens);
+        let m = min_cost_long(&fi, w as I, pi);
+        if c != m {
+            ctx.fail("optimal-fit returns a minimum-cost arrangement", format!("{}: cost {} vs minimum {}", desc, c, m), None);
+        } else {
+            ctx.oracle_ok();
+        }
+    }
+}
+
 fn c03_frags(rng: &mut Rng, big: bool, maxn: usize) -> Vec<F> {
     let n = rng.below(maxn + 1);
     let lim = if big { 1 << 16 } else { [4, 8, 12][rng.below(3)] };
@@ -121,6 +188,8 @@ fn c03_frags(rng: &mut Rng, big: bool, maxn: usize) -> Vec<F> {
 }
 
 pub fn c03(ctx: &mut Ctx) {
+    #[cfg(feature = "full")]
+    c03_long(ctx);
     #[cfg(feature = "full")]
     {
         let mut run = |ctx: &mut Ctx, frs: &[F], lws: &[f64], pen: [usize; 5]| {
@@ -343,7 +412,45 @@ fn c04_text(rng: &mut Rng) -> String {
     t
 }
 
+/// giant inputs, on a thread with the default 2 MiB stack: recursion depth and quadratic blow-ups
+/// show only here. The case is announced first (`ctx.risky`), because a stack overflow kills the
+/// process and cannot be caught.
+fn giant_cases(ctx: &mut Ctx) {
+    let sizes: &[usize] = if ctx.thorough { &[10_001, 40_000, 120_000, 300_000] } else { &[40_000, 120_000] };
+    for &n in sizes {
+        let words = "a ".repeat(n);
+        let lines = "ab\n".repeat(n);
+        let indented = "    x\n".repeat(n);
+        let jobs: Vec<(String, Box<dyn FnOnce() -> usize + Send>)> = vec![
+            (format!("wrap(\"a \" x {}, 1) with the crate's default options", n), { let t = words.clone(); Box::new(move || textwrap::wrap(&t, 1).len()) }),
+            (format!("fill(\"a \" x {}, 3)", n), { let t = words.clone(); Box::new(move || textwrap::fill(&t, 3).len()) }),
+            (format!("wrap(\"a \" x {}, 1, FirstFit)", n), { let t = words.clone(); Box::new(move || textwrap::wrap(&t, textwrap::Options::new(1).wrap_algorithm(textwrap::WrapAlgorithm::FirstFit)).len()) }),
+            (format!("wrap(\"ab\\n\" x {}, 5)", n), { let t = lines.clone(); Box::new(move || textwrap::wrap(&t, 5).len()) }),
+            (format!("refill(\"ab\\n\" x {}, 7)", n), { let t = lines.clone(); Box::new(move || textwrap::refill(&t, 7).len()) }),
+            (format!("unfill(\"ab\\n\" x {})", n), { let t = lines.clone(); Box::new(move || textwrap::unfill(&t).0.len()) }),
+            (format!("dedent(\"    x\\n\" x {})", n), { let t = indented.clone(); Box::new(move || textwrap::dedent(&t).len()) }),
+            (format!("indent(\"ab\\n\" x {}, \"> \")", n), { let t = lines.clone(); Box::new(move || textwrap::indent(&t, "> ").len()) }),
+            (format!("fill_inplace(\"a \" x {}, 3)", n), { let t = words.clone(); Box::new(move || { let mut s = t; textwrap::fill_inplace(&mut s, 3); s.len() }) }),
+            (format!("wrap_columns(\"a \" x {}, 3, 30)", n.min(40_000)), { let t = "a ".repeat(n.min(40_000)); Box::new(move || textwrap::wrap_columns(&t, 3, 30, "", " ", "").len()) }),
+            (format!("display_width(\"\\x1b[1mé\" x {})", n), { let t = "\x1b[1mé".repeat(n); Box::new(move || textwrap::core::display_width(&t)) }),
+        ];
+        for (desc, job) in jobs {
+            ctx.risky(&desc);
+            let h = std::thread::Builder::new().spawn(move || std::panic::catch_unwind(std::panic::AssertUnwindSafe(job)).is_ok());
+            let ok = h.map(|h| h.join().unwrap_or(false)).unwrap_or(false);
+            ctx.risky_done();
+            ctx.count("giant_input_cases");
+            if !ok {
+                ctx.fail("returns normally (no panic)", format!("{} panicked", desc), None);
+            } else {
+                ctx.oracle_ok();
+            }
+        }
+    }
+}
+
 pub fn c04(ctx: &mut Ctx) {
+    giant_cases(ctx);
     let mut check = |ctx: &mut Ctx, what: String, panicked: bool| {
         if panicked {
             ctx.fail("returns normally (no panic)", format!("{} panicked", what), None);
